@@ -26,8 +26,8 @@ META = {
 
 def shards(tier):
     if tier == "quick":
-        return [{"label": "cubes%d" % i, "n": 320} for i in range(8)] + [{"label": "big", "n": 12, "big": True}]
-    return [{"label": "cubes%d" % i, "n": 10000} for i in range(15)] + [{"label": "big", "n": 300, "big": True}]
+        return [{"label": "cubes%d" % i, "n": 900} for i in range(12)] + [{"label": "big", "n": 16, "big": True}]
+    return [{"label": "cubes%d" % i, "n": 70000} for i in range(15)] + [{"label": "big", "n": 600, "big": True}]
 
 
 def cases(ctx):
